@@ -67,6 +67,17 @@ def knob_configs(rng, case, m):
 
 
 def gen(rng, index, tier):
+    if index % 20 == 11:
+        from sim import realprog
+        case, _labels = realprog.real_case(rng)
+        if case is None:
+            return None
+        m, obs = enginesim.pre_run(rng, case, cap=realprog.MAX_OPS)
+        if m is None:
+            return None
+        case['configs'] = knob_configs(rng, case, m)[:5]
+        case['model_cap'] = realprog.MAX_OPS
+        return case
     case, meta = G.gen_case(rng, 'c07')
     case['tags'] = meta['tags']
     m, obs = enginesim.pre_run(rng, case)
@@ -77,13 +88,14 @@ def gen(rng, index, tier):
 
 
 def run(case):
-    violations, info = enginesim.evaluate(case, FIELDS)
+    violations, info = enginesim.evaluate(case, FIELDS, model_cap=case.get('model_cap', enginesim.MODEL_CAP))
     exp = next(iter(info['expected'].values()))
     return B.result_from(case, violations, info, exp, info['model'])
 
 
 def minimise(case, violation):
-    return enginesim.minimise(case, violation, FIELDS)
+    return enginesim.minimise(case, violation, FIELDS, model_cap=case.get('model_cap', enginesim.MODEL_CAP),
+                              budget=120 if case.get('model_cap') else 400)
 
 
 def signature(case, violation):
